@@ -615,24 +615,31 @@ impl SignBus for RespBus {
 }
 
 /// C09 trace predicate. `items` = the byte strings that had to be transferred (one per page / the config block).
-pub fn transfer_predicate(sent: &[Message<'static>], replies: &[Option<Message<'static>>], own: Address, op: Operation, items: &[&[u8]], attempts_expected: usize) -> Vec<(&'static str, String, String)> {
+pub fn transfer_predicate(sent: &[Message<'static>], replies: &[Option<Message<'static>>], own: Address, op: Operation, items: &[&[u8]], attempts_expected: Option<usize>) -> Vec<(&'static str, String, String)> {
     let mut out = vec![];
     let opn = format!("{:?}", op);
-    // the acknowledgement of the matching request comes first, in every attempt
-    for (i, m) in sent.iter().enumerate() {
-        if *m == Message::RequestOperation(own, op) && replies.get(i).cloned().flatten() != Some(Message::AckOperation(own, op)) {
-            let attempt = sent[..=i].iter().filter(|x| **x == Message::RequestOperation(own, op)).count();
-            if sent[i + 1..].iter().any(|x| matches!(x, Message::SendData(..) | Message::DataChunksSent(..))) {
-                out.push(("request-acknowledged-first", format!("{}:attempt-{}", opn, if attempt == 1 { "1" } else { "2+" }), format!("attempt {}: the receive request was answered with {:?}, not with its acknowledgement, yet data/count messages followed", attempt, replies.get(i).cloned().flatten().map(|x| msg_str(&x)))));
-            }
+    // the acknowledgement of the matching request comes first: a request that was not acknowledged must not be
+    // followed by data or a count before the next request (whether the controller gives up or asks again is not
+    // this property's business); the transfer attempts judged below are the acknowledged requests
+    let reqs: Vec<usize> = sent.iter().enumerate().filter(|(_, m)| **m == Message::RequestOperation(own, op)).map(|(i, _)| i).collect();
+    let mut starts: Vec<usize> = vec![];
+    for (k, &i) in reqs.iter().enumerate() {
+        if replies.get(i).cloned().flatten() == Some(Message::AckOperation(own, op)) {
+            starts.push(i);
+            continue;
+        }
+        let end = reqs.get(k + 1).copied().unwrap_or(sent.len());
+        if sent[i + 1..end].iter().any(|x| matches!(x, Message::SendData(..) | Message::DataChunksSent(..))) {
+            out.push(("request-acknowledged-first", format!("{}:attempt-{}", opn, if k == 0 { "1" } else { "2+" }), format!("attempt {}: the receive request was answered with {:?}, not with its acknowledgement, yet data/count messages followed", k + 1, replies.get(i).cloned().flatten().map(|x| msg_str(&x)))));
             return out;
         }
     }
-    // split at receive requests
-    let starts: Vec<usize> = sent.iter().enumerate().filter(|(_, m)| **m == Message::RequestOperation(own, op)).map(|(i, _)| i).collect();
-    if starts.len() != attempts_expected {
-        out.push(("attempts", format!("{}:{}-instead-of-{}", opn, starts.len(), attempts_expected), format!("{} transfer attempts, the failure schedule calls for {}", starts.len(), attempts_expected)));
+    if starts.is_empty() && !reqs.is_empty() {
+        return out; // no request was acknowledged and nothing was transferred: nothing more to judge
     }
+    // how often a transfer is attempted is C10/C11's business (the statement here quantifies over the attempts that
+    // are made, it does not fix their number): no clause on the count
+    let _ = attempts_expected;
     if let Some(&first) = starts.first() {
         if sent[..first].iter().any(|m| matches!(m, Message::SendData(..) | Message::DataChunksSent(..))) {
             out.push(("request-acknowledged-first", opn.clone(), "data or count sent before the receive request".into()));
@@ -644,7 +651,8 @@ pub fn transfer_predicate(sent: &[Message<'static>], replies: &[Option<Message<'
         return out;
     }
     for (ai, &s) in starts.iter().enumerate() {
-        let end = starts.get(ai + 1).copied().unwrap_or(sent.len());
+        let _ = ai;
+        let end = reqs.iter().copied().find(|&r| r > s).unwrap_or(sent.len());
         let seg = &sent[s + 1..end];
         // chunks, then count, then query
         let mut item_idx = 0usize;
